@@ -233,9 +233,16 @@ def filter_job(j):
     out['minw'] = fl(min(float(x.min()) for x in w))
     out['fmin'] = [fl(fi[t].min()) for t in range(nT)]
     out['fmax'] = [fl(fi[t].max()) for t in range(nT)]
+    resp = [rec['interp'][i].reshape(ld.shape) for i in range(5)]
+    out['min_resp'] = fl(min(float(x.min()) for x in resp))
+    raw = rec['t2xy'] if rec['t2xy'] is not None and np.shape(rec['t2xy']) == flux.shape else None
+    out['raw_fitted_recorded'] = raw is not None
     if j.get('return_weights'):
         out['w'] = [[fls(w[i][t]) for i in range(5)] for t in range(nT)]
         out['fi'] = [fls(fi[t]) for t in range(nT)]
+        out['resp'] = [[fls(resp[i][t]) for i in range(5)] for t in range(nT)]
+        if raw is not None:
+            out['fitted'] = [fls(raw[t]) for t in range(nT)]
     return out
 
 
